@@ -14,6 +14,7 @@ pub mod shims {
 use super::*;
 // opaque stand-ins for field types no verified function touches (R8)
 #[verifier::external_body] #[verifier::reject_recursive_types(K)] #[verifier::reject_recursive_types(V)] pub struct FxHashMap<K, V> { k: core::marker::PhantomData<(K, V)> }
+impl<K, V> Default for FxHashMap<K, V> { #[verifier::external_body] fn default() -> (r: Self) ensures forall|k: K| !r.has(k) { unimplemented!() } }
 impl<K, V> FxHashMap<K, V> {
     /// whether the map has an entry for the key (whatever the value)
     pub uninterp spec fn has(&self, k: K) -> bool;
@@ -41,6 +42,7 @@ impl vstd::std_specs::iter::IteratorSpecImpl for DirIter {
 #[verifier::external_body] pub struct PendingStreamsQueue { x: u8 }
 pub struct PendingStream { pub priority: i32, pub recency: u64, pub id: super::code::StreamId }
 impl PendingStreamsQueue {
+    #[verifier::external_body] pub fn new() -> (r: Self) ensures r.qlen() == 0 { unimplemented!() }
     #[verifier::external_body] pub fn clear(&mut self) { unimplemented!() }
     /// how many entries are queued (reinserted one included)
     pub uninterp spec fn qlen(&self) -> nat;
@@ -66,6 +68,8 @@ impl VarInt {
     pub const fn into_inner(self) -> (r: u64) ensures r == self.0 { self.0 }
     #[verifier::external_body] pub const fn size(self) -> (r: usize) requires self.0 < 0x4000_0000_0000_0000 ensures r == vsize(self.0) { unimplemented!() }
 }
+impl From<u32> for VarInt { fn from(x: u32) -> (r: VarInt) ensures r.0 == x { VarInt(x as u64) } }
+impl vstd::std_specs::convert::FromSpecImpl<u32> for VarInt { open spec fn obeys_from_spec() -> bool { true } open spec fn from_spec(v: u32) -> VarInt { VarInt(v as u64) } }
 impl From<VarInt> for u64 { fn from(x: VarInt) -> (r: u64) ensures r == x.0 { x.0 } }
 impl vstd::std_specs::convert::FromSpecImpl<VarInt> for u64 { open spec fn obeys_from_spec() -> bool { true } open spec fn from_spec(v: VarInt) -> u64 { v.0 } }
 #[derive(Copy, Clone, PartialEq, Eq)] pub enum Code { STREAM_STATE_ERROR, STREAM_LIMIT_ERROR, FRAME_ENCODING_ERROR }
@@ -369,6 +373,7 @@ impl StreamsState {
             final(self).allocated_remote_count == old(self).allocated_remote_count, final(self).max_concurrent_remote_count == old(self).max_concurrent_remote_count,
             final(self).send_streams == old(self).send_streams, final(self).streams_blocked == old(self).streams_blocked,
             final(self).max_data == old(self).max_data, final(self).data_sent == old(self).data_sent, final(self).unacked_data == old(self).unacked_data,
+            final(self).fc() == old(self).fc(), final(self).send_window == old(self).send_window,
     { unimplemented!() }
 
     /// flow-control part of the state, which the hash-map / event-queue helpers below do not touch
@@ -387,6 +392,40 @@ impl StreamsState {
             final(self).max_data == old(self).max_data, final(self).data_sent == old(self).data_sent, final(self).unacked_data == old(self).unacked_data,
     { unimplemented!() }
 
+//@ extract quinn-proto/src/connection/streams/state.rs :: impl StreamsState::fn new
+//@ props C05 C06
+//@ ret r
+//@ replace Dir::iter() => dir_iter()
+//@ contract
+        requires max_remote_uni.0 <= 0x1000_0000_0000_0000, max_remote_bi.0 <= 0x1000_0000_0000_0000
+        ensures
+            // a fresh connection: nothing sent, nothing granted by the peer yet, the configured windows advertised
+            r.side == side, r.data_sent == 0 && r.max_data == 0 && r.unacked_data == 0 && r.send_window == send_window,
+            r.next[0] == 0 && r.next[1] == 0 && r.max[0] == 0 && r.max[1] == 0 && r.send_streams == 0,
+            r.data_recvd == 0 && r.local_max_data == receive_window.0 && r.sent_max_data == receive_window && r.receive_window == receive_window.0
+                && r.receive_window_shrink_debt == 0 && r.stream_receive_window == stream_receive_window.0,
+            r.max_remote[0] == max_remote_bi.0 && r.max_remote[1] == max_remote_uni.0,
+            r.allocated_remote_count == r.max_remote && r.max_concurrent_remote_count == r.max_remote,
+//@ loop-iter 0 od
+//@ loop 0
+            invariant
+                this.side == side, this.data_sent == 0 && this.max_data == 0 && this.unacked_data == 0 && this.send_window == send_window,
+                this.next[0] == 0 && this.next[1] == 0 && this.max[0] == 0 && this.max[1] == 0 && this.send_streams == 0,
+                this.data_recvd == 0 && this.local_max_data == receive_window.0 && this.sent_max_data == receive_window && this.receive_window == receive_window.0
+                    && this.receive_window_shrink_debt == 0 && this.stream_receive_window == stream_receive_window.0,
+                this.max_remote[0] == max_remote_bi.0 && this.max_remote[1] == max_remote_uni.0, max_remote_uni.0 <= 0x1000_0000_0000_0000, max_remote_bi.0 <= 0x1000_0000_0000_0000,
+                this.allocated_remote_count == this.max_remote && this.max_concurrent_remote_count == this.max_remote,
+//@ loop-iter 1 ir
+//@ loop 1
+                invariant
+                    ir.seq().len() <= 0x1000_0000_0000_0000, i == ir.index@,
+                    this.side == side, this.data_sent == 0 && this.max_data == 0 && this.unacked_data == 0 && this.send_window == send_window,
+                    this.next[0] == 0 && this.next[1] == 0 && this.max[0] == 0 && this.max[1] == 0 && this.send_streams == 0,
+                    this.data_recvd == 0 && this.local_max_data == receive_window.0 && this.sent_max_data == receive_window && this.receive_window == receive_window.0
+                        && this.receive_window_shrink_debt == 0 && this.stream_receive_window == stream_receive_window.0,
+                    this.max_remote[0] == max_remote_bi.0 && this.max_remote[1] == max_remote_uni.0, max_remote_uni.0 <= 0x1000_0000_0000_0000, max_remote_bi.0 <= 0x1000_0000_0000_0000,
+                    this.allocated_remote_count == this.max_remote && this.max_concurrent_remote_count == this.max_remote,
+//@ end
 //@ extract quinn-proto/src/connection/streams/state.rs :: impl StreamsState::fn write_stream_frames
 //@ props C01 C13 C10
 //@ ret r
